@@ -486,7 +486,14 @@ def minmax(p):
     return mk('minmax', [('v%d' % i, 'int') for i in range(n)], pre, body)
 
 
-FAMILIES = {'whole_run': WholeRun, 'induction': Induction, 'rounding': Rounding, 'stub_valid': StubValid, 'minmax': minmax}
+def mux_fp(p):
+    """accuracy on multiplexed sources with interleaved keys: the per-group result over IEEE binary64 terms must be bit-for-bit the plain result on that group's items
+    (the transparency obligation of C01, here for the aggregates of this property)"""
+    from vp.props import C01
+    return C01.Floats(dict(prog=p['prog'], n=p['n'], g=2, fp=True))
+
+
+FAMILIES = {'mux_fp': mux_fp, 'whole_run': WholeRun, 'induction': Induction, 'rounding': Rounding, 'stub_valid': StubValid, 'minmax': minmax}
 
 
 def obligations(tier, seed):
@@ -508,6 +515,8 @@ def obligations(tier, seed):
     if not q:
         obs.append(Ob(PROP, 'rounding', dict(eb=5, sb=11, web=8, wsb=24, timeout=1500), kind='direct', budget=1600, group='rounding(z3x)',
                       bound=dict(format='binary16', reference='binary32', n=2, data='[16,32)')))
+    for prog in ('sum', 'sum_r', 'mean', 'var', 'var_r', 'sum>var'):
+        obs.append(Ob(PROP, 'mux_fp', dict(prog=prog, n=4), kind='direct', budget=200 if q else 900, group='mux_fp(z3x)', bound=dict(items=4, groups=2, values='any binary64', op=prog)))
     for op in ('min', 'max'):
         for mode in ('plain', 'mux'):
             for reduce in (False, True):
